@@ -635,3 +635,73 @@ Proof.
     + unfold spec_desc. apply NoDup_filter, seq_NoDup.
     + intros x Hx. apply M; auto.
 Qed.
+
+(* ================= 5. roll-up monoids; per-chain suffix folds ================= *)
+Lemma combine_assoc : forall o a b c, combine o a (combine o b c) = combine o (combine o a b) c.
+Proof. intros o [|x] [|y] [|z]; destruct o; cbn; try reflexivity; f_equal; lia. Qed.
+
+Lemma combine_comm : forall o a b, combine o a b = combine o b a.
+Proof. intros o [|x] [|y]; destruct o; cbn; try reflexivity; f_equal; lia. Qed.
+
+Lemma combine_null_l : forall o a, combine o RNull a = a.
+Proof. reflexivity. Qed.
+
+Lemma combine_null_r : forall o a, combine o a RNull = a.
+Proof. intros o [|x]; reflexivity. Qed.
+
+(* the declared identity is neutral on every value a fold can produce from integer measures *)
+Lemma combine_identity_l : forall o z, combine o (identity o) (RInt z) = RInt z.
+Proof. intros [] z; cbn; f_equal; lia. Qed.
+
+(* fold of a value list, the specification of one suffix cell *)
+Definition fold_vals (o : rop) (vals : list rv) : rv := fold_right (combine o) (identity o) vals.
+
+Lemma suffix_folds_length : forall o vals, length (suffix_folds o vals) = S (length vals).
+Proof. induction vals; cbn; auto. Qed.
+
+Lemma suffix_folds_hd : forall o vals, hd RNull (suffix_folds o vals) = fold_vals o vals.
+Proof. induction vals as [|v r IH]; cbn; auto. rewrite IH. reflexivity. Qed.
+
+(* set_measure's suffix table: cell i = fold of the chain's values from position i on *)
+Theorem suffix_folds_spec : forall o vals i, i <= length vals ->
+  nth i (suffix_folds o vals) RNull = fold_vals o (skipn i vals).
+Proof.
+  intros o vals. induction vals as [|v r IH]; intros i Hi.
+  - cbn in Hi. replace i with 0 by lia. reflexivity.
+  - destruct i as [|i].
+    + cbn [suffix_folds nth skipn]. rewrite suffix_folds_hd. reflexivity.
+    + cbn [suffix_folds nth skipn]. apply IH. cbn in Hi. lia.
+Qed.
+
+(* update_measure on a chain: refolding cells pos..0 from the updated measure lands exactly on the
+   table a rebuild (set_measure with the updated measure) would produce *)
+Theorem refold_spec : forall o chain m suf pos,
+  let vals := map (fun v => rv_of (nth v m None) (identity o)) chain in
+  pos < length chain ->
+  length suf = S (length chain) ->
+  (forall i, pos < i -> i <= length chain -> nth i suf RNull = nth i (suffix_folds o vals) RNull) ->
+  refold o chain m suf pos = suffix_folds o vals.
+Proof.
+  intros o chain m suf pos vals. revert suf. induction pos as [|pos IH]; intros suf Hpos Hlen Hsuf.
+  - cbn [refold].
+    apply nth_ext with (d := RNull) (d' := RNull).
+    + rewrite upd_length, suffix_folds_length. unfold vals. rewrite map_length. auto.
+    + rewrite upd_length. intros i Hi. rewrite nth_upd by lia.
+      destruct (Nat.eqb_spec i 0) as [->|Hne].
+      * rewrite Hsuf by lia. rewrite !suffix_folds_spec by (unfold vals; rewrite map_length; lia).
+        unfold vals at 2. destruct chain as [|c0 chain']; [cbn in Hpos; lia|]. reflexivity.
+      * apply Hsuf; lia.
+  - cbn [refold]. apply IH; try lia.
+    + rewrite upd_length. auto.
+    + intros i Hi Hi2. rewrite nth_upd by lia.
+      destruct (Nat.eqb_spec i (S pos)) as [->|Hne]; [|apply Hsuf; lia].
+      rewrite Hsuf by lia. rewrite !suffix_folds_spec by (unfold vals; rewrite map_length; lia).
+      assert (E : skipn (S pos) vals = nth (S pos) vals RNull :: skipn (S (S pos)) vals).
+      { assert (Hl : S pos < length vals) by (unfold vals; rewrite map_length; lia).
+        clear -Hl. revert Hl. generalize (S pos) as k. generalize vals as l.
+        induction l as [|a l IHl]; intros k Hk; cbn in Hk; [lia|].
+        destruct k; [reflexivity|]. cbn [skipn nth]. apply IHl. lia. }
+      rewrite E. cbn [fold_vals fold_right]. f_equal.
+      unfold vals. rewrite (nth_indep _ RNull (rv_of (nth 0 m None) (identity o))) by (rewrite map_length; lia).
+      rewrite (map_nth (fun v => rv_of (nth v m None) (identity o))). reflexivity.
+Qed.
